@@ -298,6 +298,16 @@ def saved(doc, rname):
     return _SAVED[key]
 
 
+def usable(doc, rname):
+    """The pool render produced a loadable dict file and a captured label set (otherwise the 'rt' block reports
+    the defect and the fault spaces of that file are not enumerated)."""
+    s = saved(doc, rname)
+    if s['exc'] or s['paux'] is None or s['captured'] is None:
+        return False
+    P = M.ref_load(s['paux'])
+    return M.is_data(P) and type(P[1]) is dict
+
+
 def _render_job(key):
     return key, saved(*key)
 
@@ -676,9 +686,9 @@ class Env(object):
     def __init__(self, doc, rname, tmp):
         s = saved(_base_doc(doc), rname)
         c = saved(_cur_doc(doc), rname)
-        for x in (s, c):
-            if x['exc'] or x['paux'] is None or x['captured'] is None:
-                raise RuntimeError('pool document %s/%s did not render: %s' % (doc, rname, x['exc']))
+        for x in (_base_doc(doc), _cur_doc(doc), _second_doc(doc)):
+            if not usable(x, rname):
+                raise RuntimeError('pool document %s/%s did not render to a loadable file: %s' % (x, rname, saved(x, rname)['exc']))
         self.doc, self.rname = doc, rname
         self.base = s['paux']
         self.current = c['captured']
@@ -1233,7 +1243,7 @@ def run(tier, seed, rep):
             if not quick or d in ('sec', 'mix', 'uni', 'empty'):
                 for name in PREV_FAULTS:
                     blocks.append(('prev', d, r, name))
-    ok = lambda d, r: not (saved(d, r)['exc'] or saved(d, r)['paux'] is None or saved(d, r)['captured'] is None)
+    ok = usable
     for d in docs + PAIRS:
         for r in RENDERERS:
             if not (ok(_base_doc(d), r) and ok(_cur_doc(d), r) and ok(_second_doc(d), r) and ok(_base_doc(d), _other(r))):
